@@ -154,6 +154,9 @@ class C10Part(qw.WirePart):
                 if g is None:
                     bad.append(("%s/img-%s" % (self.fam, "threw" if o.startswith("throw") else "bad-observation"), o[:120], i))
                     continue
+                for f in g["fails"]:
+                    # one sketch, two writers, two different images: at most one of them is the documented layout
+                    bad.append(("%s/%s" % (self.fam, f.split(":")[0]), "%s: the byte-vector writer and the stream writer disagree (stream image %s)" % (g["kind"], g["hex"][:100]), i))
                 # the documented reader (Lean) must recover the content the API reports
                 try:
                     m = qw.model_query(["IMG %s %s" % (g["kind"], g["hex"])])[0]
